@@ -29,7 +29,13 @@ RULE = ('condition programs = forests of with-predicate / otherwise / |= nodes: 
         'predicates, 2-3 targets among WireVector/Register/MemBlock, assignments at random positions among the '
         'branches, otherwise at any position (first, middle, repeated), defaults= in 40 %, mixed-width / int '
         'right-hand sides sometimes; 60 % are repaired into accepted programs by dropping conflicting '
-        'assignments; (3) multi-block designs (2-3 conditional blocks per design, defaults of one block naming '
+        'assignments; the random forests also reuse address / data / enable wires with probability 0-0.8; '
+        '(2b) memory write chains: 2-4 (thorough 5) conditional writes to ONE MemBlock with address wires drawn '
+        'from a pool of 3 SHARED address Inputs -- every address-wire pattern up to renaming (XY, XYY, XYX, XXYY, '
+        'XYZX ...) x 4 tree shapes (flat chain, chain ending in otherwise, nested otherwise, split), plus 60 '
+        '(thorough 600) random ones with shared data wires too; distinct address wires get distinct values '
+        'each cycle and the FULL memory contents are compared after every cycle; '
+        '(3) multi-block designs (2-3 conditional blocks per design, defaults of one block naming '
         'targets of another) and a malformed stream (2-bit predicate, foreign exception inside the block, nested '
         'conditional_assignment, otherwise outside a block, repeated assignment, unguarded assignment) '
         'interleaved with the good programs in one process, module state inspected after each. Each accepted '
